@@ -139,9 +139,10 @@ var c07Precisions = []int{-8, -7, -6, -5, -4, -3, -2, -1, 0, 1, 2, 3, 4, 5, 6, 7
 
 func c07Scope(tier string) *drv.Scope {
 	nS := enum.PathCount(3, 3)
-	clipStride := uint64(81)
+	// coprime to 9, so the selected clip triangles are not pinned to lattice point 0
+	clipStride := uint64(80)
 	if tier == "thorough" {
-		clipStride = 9
+		clipStride = 10
 	}
 	nC := (nS + clipStride - 1) / clipStride
 	nP := uint64(len(c07Precisions) + 1) // + default omitted
@@ -302,9 +303,11 @@ func c07Scope(tier string) *drv.Scope {
 					fail("minkowski", fmt.Sprintf("MinkowskiDiffD(closed=%v)", closed), false, "", sameD(gd, clipper.MinkowskiDiff64(C[0], S[0], closed), p))
 				}
 			}
-			// 5./6. rectangle clipping: bounds quantised like coordinates
-			{
-				l, t, r, b := (5+0.4)/scale, (5-0.4)/scale, (15+0.6)/scale, (25-0.25)/scale
+			// 5./6. rectangle clipping: bounds quantised like coordinates. The second rectangle has its bounds less
+			// than one quantum inside the lattice lines 0 and 20, so path vertices that are outside the float
+			// rectangle land exactly on the quantised rectangle's edges.
+			for ri, rb := range [][4]float64{{5 + 0.4, 5 - 0.4, 15 + 0.6, 25 - 0.25}, {0.4, 0.4, 20 - 0.4, 20 - 0.4}} {
+				l, t, r, b := rb[0]/scale, rb[1]/scale, rb[2]/scale, rb[3]/scale
 				rectD := clipper.NewRectD(l, t, r, b)
 				ql, _ := quantRef(l, p)
 				qt, _ := quantRef(t, p)
@@ -325,7 +328,7 @@ func c07Scope(tier string) *drv.Scope {
 					fail("rectclip", "RectClipPathsD", false, "", sameD(gp, clipper.RectClipPaths64(rect, both64), p))
 					fail("rectclip", "RectClipLinesPathsD", false, "", sameD(gl, clipper.RectClipLinesPaths64(rect, both64), p))
 				}
-				if pv == nil {
+				if pv == nil && ri == 0 {
 					var g1, g2 PathsD
 					pan, _, msg := callD(func() {
 						g1 = clipper.RectClipPathD(rectD, SD[0])
@@ -455,7 +458,7 @@ func init() {
 	drv.Register(&drv.Check{
 		ID:    "C07",
 		Title: "Floating-point API equals the integer API on quantised input",
-		Rule: "every D entry point (BooleanOpPathsD + 5 wrappers, ClipperD.ExecuteOC with an open subject, BooleanOpPolyTreeD, InflatePathsD (4 join/end configurations with delta and arc tolerance), MinkowskiSumD/DiffD closed and open, RectClipPathsD/PathD, RectClipLinesPathsD/PathD, TrimCollinearD closed and open) x precision -8..8 and default-omitted x all subject triangles of P(3,3) x every k-th clip triangle x fraction patterns (float = (10c+f)/10^p, f in {0, +-.25, +-.4, .6}: quantisation really rounds and is never near a tie); " +
+		Rule: "every D entry point (BooleanOpPathsD + 5 wrappers, ClipperD.ExecuteOC with an open subject, BooleanOpPolyTreeD, InflatePathsD (4 join/end configurations with delta and arc tolerance), MinkowskiSumD/DiffD closed and open, RectClipPathsD/PathD, RectClipLinesPathsD/PathD (two rectangles: one between the lattice lines, one whose bounds are less than a quantum inside them), TrimCollinearD closed and open) x precision -8..8 and default-omitted x all subject triangles of P(3,3) x every k-th clip triangle x fraction patterns (float = (10c+f)/10^p, f in {0, +-.25, +-.4, .6}: quantisation really rounds and is never near a tie); " +
 			"oracle: exact big.Rat quantiser and unscaler; the D result must have the structure of the 64-bit counterpart on the quantised input with scalars x 10^p and every coordinate within 1 ulp; tree polygons identical and tree scale = 10^p. Separately: the quantiser helpers on {k+f} incl. exact ties (either neighbour accepted) and ScaleRectD; precisions -100,-10,-9,9,10,100 on all 14 D entry points must panic with ErrPrecisionRange and nothing else. non-trivial = case with a non-empty boolean result",
 		Assumptions:      []string{"finite float alphabet (no denormals, no values whose product with 10^p is within 0.1 of a rounding tie in the main scope)", "64-bit counterparts are trusted here: their own meaning is decided by the other checks"},
 		RequiredCounters: []string{"cases_with_nonempty_boolean_result", "out_of_range_precisions_tried"},
